@@ -315,7 +315,7 @@ fn check(g: &Game17, st: &mut Stats) -> Result<(), Fail> {
 
 pub fn run(run: &mut Run) -> &'static str {
     let tier = run.tier;
-    let cases = tier.pick(60_000, 1_500_000);
+    let cases = tier.pick(120_000, 1_500_000);
     run.watchdog_secs = Some(300);
     let strat = tape(8..520).prop_map(Case::Tape);
     run.proptest_part("games", RULE, strat, cases, |c: &Case, st: &mut Stats| {
